@@ -474,6 +474,12 @@ def compare_flows(prop, name, real, spec, args, kw, spec_name=None, skip_specs=(
                 return dict(compare_self.attrs)      # the object's final state is the result
             return r
         outs[which] = explore(runner, contracts=contracts, packages=('wn', 'contracts.spec_core'), pre=pre)
+    return compare_outcomes(prop, name, real, outs)
+
+
+def compare_outcomes(prop, name, real, outs) -> list:
+    """Obligations: on every compatible pair of paths of the real function and of its contract the same calls are
+    made with the same arguments and the results are equal."""
     obs = []
     for r in outs['real']:
         for s in outs['spec']:
